@@ -1812,6 +1812,67 @@ def _build_fn(sf: SourceFile, item: Item, impl, ex: Extract, props, rep, unit, a
         nb = Tok(PUNCT, "{", -1, -1); nb.mark = ("brace", ordn); body_toks[br] = nb
         nk = Tok(IDENT, body_toks[kw].text, -1, -1); nk.mark = ("kw", ordn); body_toks[kw] = nk
 
+    # R19: Verus' `for` does not support `continue`. In a `for` loop that is not desugared (R10), a statement of the loop
+    # body of the form `if C { S; continue; }` (no else) followed by the rest R of the body is rewritten to
+    # `if C { S } else { R }` -- the same control flow. Anything else with `continue` is left alone (Verus then rejects the
+    # unit: undecided).
+    for ordn, (kw0, br0) in enumerate(loops):
+        if ordn in ex.desugar_for:
+            continue
+        kw = next(i for i, t in enumerate(body_toks) if getattr(t, "mark", None) == ("kw", ordn))
+        if body_toks[kw].text != "for":
+            continue
+        n19 = 0
+        while True:
+            br = next(i for i, t in enumerate(body_toks) if getattr(t, "mark", None) == ("brace", ordn))
+            cb = match_close(body_toks, br)
+            hit = None
+            k = br + 1
+            while k < cb:
+                tk = body_toks[k]
+                if tk.kind == PUNCT and tk.text in OPEN:
+                    k = match_close(body_toks, k) + 1; continue
+                if tk.kind == IDENT and tk.text == "if" and body_toks[_prev_sig(body_toks, k)].text in (";", "{", "}"):
+                    q = k + 1
+                    while q < cb and not (body_toks[q].kind == PUNCT and body_toks[q].text == "{"):
+                        if body_toks[q].kind == PUNCT and body_toks[q].text in OPEN:
+                            q = match_close(body_toks, q) + 1; continue
+                        q += 1
+                    if q >= cb:
+                        break
+                    c1 = match_close(body_toks, q)
+                    nx = _next_sig(body_toks, c1)
+                    if body_toks[nx].kind == IDENT and body_toks[nx].text == "else":
+                        # skip the whole if / else-if chain
+                        while body_toks[nx].kind == IDENT and body_toks[nx].text == "else":
+                            q2 = nx + 1
+                            while not (body_toks[q2].kind == PUNCT and body_toks[q2].text == "{"):
+                                if body_toks[q2].kind == PUNCT and body_toks[q2].text in OPEN:
+                                    q2 = match_close(body_toks, q2) + 1; continue
+                                q2 += 1
+                            c1 = match_close(body_toks, q2)
+                            nx = _next_sig(body_toks, c1)
+                        k = c1 + 1; continue
+                    last = _prev_sig(body_toks, c1)
+                    semi = None
+                    if body_toks[last].text == ";":
+                        semi = last
+                        last = _prev_sig(body_toks, last)
+                    if body_toks[last].kind == IDENT and body_toks[last].text == "continue" and body_toks[_prev_sig(body_toks, last)].text in (";", "{", "}"):
+                        hit = (last, semi, c1)
+                        break
+                    k = c1 + 1; continue
+                k += 1
+            if hit is None:
+                break
+            last, semi, c1 = hit
+            body_toks[cb:cb] = [T(PUNCT, "}"), T(WS, "\n")]
+            body_toks[c1 + 1:c1 + 1] = [T(WS, " "), T(IDENT, "else"), T(WS, " "), T(PUNCT, "{")]
+            del body_toks[last:(semi if semi is not None else last) + 1]
+            n19 += 1
+        if n19:
+            rep.append(("R19", f"loop {ordn}: `if C {{ ..; continue; }} R` -> `if C {{ .. }} else {{ R }}` x{n19} (Verus' `for` has no `continue`)"))
+
     if ex.closures:
         body_toks = rw_closure_specs(body_toks, [(k, rd, c.text) for (k, rd, c) in ex.closures], rep, qual)
 
